@@ -33,9 +33,9 @@ func init() {
 		c18ReaderByte(r, p.Byte)
 	})
 	scenario("C18", "header", func(r *core.Run, c core.Case) {
-		var p struct{ DictCap int }
+		var p struct{ DictCap, Pre, Hist int }
 		params(c, &p)
-		c18Header(r, p.DictCap, c18Table())
+		c18HeaderHist(r, p.DictCap, p.Pre, p.Hist, c18Table())
 	})
 }
 
@@ -100,13 +100,40 @@ func c18Decode(r *core.Run, code int, t [41]int64) {
 
 // c18Header writes an (empty) xz stream with the given DictCap and checks the
 // dictionary byte of the emitted block header.
-func c18Header(r *core.Run, dictCap int, t [41]int64) {
-	cs := core.MkCase("C18", "header", map[string]int{"DictCap": dictCap})
+func c18Header(r *core.Run, dictCap int, t [41]int64) { c18HeaderHist(r, dictCap, 0, 0, t) }
+
+// c18HeaderHist: the writer is created from a configuration variable with a history. hist 1: the
+// variable held capacity pre when Verify was called on it (Verify fills in defaults in place),
+// then DictCap was set to dictCap; hist 2: a first writer was created (and used) from the variable
+// with capacity pre, then DictCap was set to dictCap and a second writer created. The header of
+// the writer created last must carry the code of dictCap.
+func c18HeaderHist(r *core.Run, dictCap, pre, hist int, t [41]int64) {
+	cs := core.MkCase("C18", "header", map[string]int{"DictCap": dictCap, "Pre": pre, "Hist": hist})
 	var sink sinkBuf
 	var err error
 	p := core.Guard(func() {
 		var w *xz.Writer
-		w, err = xz.WriterConfig{DictCap: dictCap}.NewWriter(&sink)
+		cfg := xz.WriterConfig{DictCap: dictCap}
+		switch hist {
+		case 1:
+			cfg.DictCap = pre
+			if err = cfg.Verify(); err != nil {
+				return
+			}
+			cfg.DictCap = dictCap
+		case 2:
+			cfg.DictCap = pre
+			var first sinkBuf
+			w0, e0 := cfg.NewWriter(&first)
+			if e0 != nil {
+				err = e0
+				return
+			}
+			w0.Write([]byte("first"))
+			w0.Close()
+			cfg.DictCap = dictCap
+		}
+		w, err = cfg.NewWriter(&sink)
 		if err == nil {
 			_, err = w.Write([]byte("x"))
 			if err == nil {
@@ -130,7 +157,12 @@ func c18Header(r *core.Run, dictCap int, t [41]int64) {
 	code := int(x.Streams[0].Blocks[0].DictCode)
 	want := c18Want(int64(dictCap), t)
 	if code != want {
-		r.Violate(cs, "header wrong-dict-code", fmt.Sprintf("DictCap=%d", dictCap), fmt.Sprintf("code %d", code), fmt.Sprintf("code %d", want))
+		sig, d := "header wrong-dict-code", fmt.Sprintf("DictCap=%d", dictCap)
+		if hist > 0 {
+			sig += " (configuration variable reused)"
+			d = fmt.Sprintf("configuration variable: DictCap=%d, %s, then DictCap=%d, NewWriter", pre, map[int]string{1: "Verify()", 2: "NewWriter + Write + Close"}[hist], dictCap)
+		}
+		r.Violate(cs, sig, d, fmt.Sprintf("code %d", code), fmt.Sprintf("code %d", want))
 	}
 	r.Eval(core.Hash("hdr", code))
 	r.Nontrivial(core.Hash("hdr", code))
@@ -260,6 +292,19 @@ func runC18(r *core.Run) {
 		r.Workers = 4 // memory: each writer allocates DictCap + hash table
 	}
 	r.Parallel(len(caps), "block header dictionary byte", func(i int) { c18Header(r, caps[i], t) })
+	// configuration histories: all ordered pairs of a capacity menu x {Verify, earlier writer}
+	hm := []int{4096, 4097, 6144, 65536, 1 << 20, 1<<20 + 1, 3 << 20, 8 << 20}
+	type hc struct{ pre, dc, hist int }
+	var hcs []hc
+	for _, a := range hm {
+		for _, b := range hm {
+			if a != b {
+				hcs = append(hcs, hc{a, b, 1}, hc{a, b, 2})
+			}
+		}
+	}
+	r.Parallel(len(hcs), "block header dictionary byte after a configuration history", func(i int) { c18HeaderHist(r, hcs[i].dc, hcs[i].pre, hcs[i].hist, t) })
+	r.Count("headers_checked_after_config_history", int64(len(hcs)))
 	r.Workers = old
 	r.Count("headers_checked", int64(len(caps)))
 	r.Sample(map[string]interface{}{"header DictCap": caps[:6]})
